@@ -24,6 +24,8 @@ AGGS = {
     "min_filter_null": lambda p, t: t.b.min(filter=t.p),
     "mean_times": lambda p, t: t.b.mean() * 2,
     "sum_bool": lambda p, t: t.p.sum(),
+    "count_star_filter": lambda p, t: p.count(filter=t.a > 0),
+    "count_star_filter_null": lambda p, t: p.count(filter=t.p),
     "any_cmp": lambda p, t: (t.b > t.a).any(),
     "count_fill": lambda p, t: t.b.sum().fill_null(0),
     "when_over_agg": lambda p, t: p.when(t.b.max() > 2).then(t.b.min()).otherwise(p.count()),
@@ -79,6 +81,12 @@ def templates(cfg):
     T("all_null_group_sum", lambda p, t: t >> p.filter(t.b.is_null()) >> p.group_by(t.g) >> p.summarize(s=t.b.sum(), q=t.p.any(), r=t.p.all(), n=p.count()))
     T("filter_arg_rejects_all", lambda p, t: t >> p.group_by(t.g) >> p.summarize(s=t.b.sum(filter=t.b < t.b), c=t.b.count(filter=t.b < t.b), q=t.p.all(filter=t.a.is_null() & t.a.is_not_null())))
     T("window_agg_all_null", lambda p, t: t >> p.mutate(s=t.b.sum(partition_by=t.g), q=t.p.any(partition_by=t.g)))
+    T("regroup_same_key", lambda p, t: t >> p.group_by(t.g) >> p.summarize(s=t.b.sum()) >> p.group_by(t.g) >> p.summarize(n=p.count()))
+    T("regroup_same_key_alias", lambda p, t: t >> p.group_by(t.g, t.p) >> p.summarize(s=t.b.sum()) >> p.alias("z") >> p.group_by(p.C.g) >> p.summarize(n=p.count()))
+    T("regroup_subset_key", lambda p, t: t >> p.group_by(t.g, t.p) >> p.summarize(s=t.b.sum()) >> p.group_by(t.g) >> p.summarize(n=p.count()))
+    T("slice0_then_count", lambda p, t: t >> p.arrange(t.a.nulls_last(), t.b.nulls_last(), t.g.nulls_last()) >> p.slice_head(0) >> p.summarize(n=p.count()))
+    T("slice0_then_filter", lambda p, t: t >> p.arrange(t.a.nulls_last(), t.b.nulls_last(), t.g.nulls_last()) >> p.slice_head(0) >> p.filter(t.a > 0))
+    T("slice0_alias_then_count", lambda p, t: t >> p.arrange(t.a.nulls_last(), t.b.nulls_last(), t.g.nulls_last()) >> p.slice_head(0) >> p.alias("z") >> p.summarize(n=p.count()))
     # string keys and string min/max
     T("str_key", lambda p, t: t >> p.group_by(t.s) >> p.summarize(n=p.count(), s2=t.b.sum()), S_STR, alphabet="ab", nmax=3)
     T("str_minmax", lambda p, t: t >> p.summarize(lo=t.s.min(), hi=t.s.max()), S_STR, alphabet="ab", nmax=3)
